@@ -51,17 +51,26 @@ def floor(rule, what, count, minimum):
 
 class Ctx:
     def __init__(self, facts):
+        self.raw_facts = facts
+        if os.environ.get('JL_NORMALISE', '0') == '1':
+            # fold private helper functions into their callers (rules/inline.py): the rules then see the same body whether
+            # or not a maintainer has extracted part of a role function into a helper
+            import inline
+            A0 = Anchors(facts)
+            keep = set()
+            for v in A0.roles.values():
+                if hasattr(v, 'blocks'):
+                    keep.add(v)
+            for f in facts.fns:
+                if f.eff_pub or f.trait or f.kind == 'Closure':
+                    keep.add(f)
+            facts = inline.normalise(facts, keep)
         self.facts = facts
         self.A = Anchors(facts)
         self.E = Events(facts, self.A)
         self._du = {}
         self._traces = {}
         self.stats = {}
-
-    def du(self, fn):
-        if fn.path not in self._du:
-            self._du[fn.path] = DefUse(self.facts, fn)
-        return self._du[fn.path]
 
     def trace(self, entry, const_args=None):
         key = (entry.path, tuple(sorted((const_args or {}).items())))
@@ -72,6 +81,36 @@ class Ctx:
 
     def need(self, *names):
         return self.A.need(*names)
+
+    def keep_set(self):
+        """functions that are never inlined into a scope view: role-identified functions, the public API, trait methods"""
+        if not hasattr(self, '_keep'):
+            keep = set()
+            for v in self.A.roles.values():
+                if hasattr(v, 'blocks'):
+                    keep.add(v)
+            for f in self.facts.fns:
+                if f.eff_pub or f.trait or f.kind == 'Closure':
+                    keep.add(f)
+            self._keep = keep
+        return self._keep
+
+    def x(self, fn):
+        """expanded view of a scope function: private, non-role helper functions it calls are inlined (rules/inline.py)"""
+        if fn is None:
+            return None
+        if not hasattr(self, '_views'):
+            self._views = {}
+        if fn.path not in self._views:
+            import inline
+            self._views[fn.path] = inline.expand(self.facts, fn, self.keep_set() - {fn})
+        return self._views[fn.path]
+
+    def du(self, fn):
+        key = (fn.path, id(fn))
+        if key not in self._du:
+            self._du[key] = DefUse(self.facts, fn)
+        return self._du[key]
 
 
 # ------------------------------------------------------------------ known findings
